@@ -62,6 +62,26 @@ func probeSpecs() (bigs, bursts []*seqSpec) {
 			id++
 		}
 	}
+	// unknown method, then valid requests, on ONE persistent connection, every
+	// protocol: a server that keeps one input protocol per connection must leave
+	// it at a message boundary after the unknown-method branch
+	for _, leg := range []string{"pipe", "tcp"} {
+		for _, proto := range rig.Protocols {
+			for _, lock := range []bool{true, false} {
+				s := &seqSpec{id: id, leg: leg, proto: proto, mode: "probe-unknown-then-valid", conns: 1, lockstep: lock, rng: fixed}
+				for i, k := range []int{kPing, kUnknown, kPing, kUnknown, kEchoOK, kUnknown, kUnknown, kAdd, kErrInternal, kUnknown, kGetBig} {
+					r := newRequest(fixed, proto, k, genOpts{stream: true, smallOnly: true})
+					r.idx = i
+					s.reqs = append(s.reqs, r)
+				}
+				s.perConn = [][]*request{s.reqs}
+				s.sentinel = []*request{newSentinel(fixed, proto)}
+				s.sentinel[0].idx = 100000
+				bursts = append(bursts, s)
+				id++
+			}
+		}
+	}
 	return bigs, bursts
 }
 
